@@ -104,7 +104,7 @@ def make_targets(a, prog):
 
 def run(ctx):
     out, metas = GC.run_targets(
-        ctx, PID, make_targets, 50, 1200, kmin=1,
+        ctx, PID, make_targets, 50, 600, kmin=1,
         rule=('same program generator as C01; targets: for every goods/labour/money/deposit market of the program '
               'the clearing, demand-membership, allocation and per-supplier identities, portfolio and default '
               'money-demand identities; non-trivial = program with at least one market; distinct by full program'))
